@@ -109,16 +109,20 @@ def keys_view(snap):
 
 class Check(PropertyCheck):
     prop = "C04"
-    module = "LLBuild.Props.C04"
+    module = "LLBuild.Props.C04All"
     theorems = ["LLBuild.BuildDB.C04_committed_inv", "LLBuild.BuildDB.C04_no_epoch_reuse", "LLBuild.BuildDB.C04_deps_closed",
-                "LLBuild.BuildDB.C04_set_preserves", "LLBuild.BuildDB.C04_crash_keeps_committed"]
-    extractors = ["x_sqlitedb"]
-    harnesses = [("vc03", "plain")]
+                "LLBuild.BuildDB.C04_set_preserves", "LLBuild.BuildDB.C04_crash_keeps_committed",
+                # engine level (abstract engine with the `crash` event; Props/C04Engine.lean)
+                "LLBuild.Engine.C04_continue_clean", "LLBuild.Engine.C04_crash_rolls_back",
+                "LLBuild.Engine.C04_commit_only_at_build_complete", "LLBuild.Engine.C04_no_epoch_reuse_engine",
+                "LLBuild.Engine.C04_committed_rows_good", "LLBuild.Engine.step_invC"]
+    extractors = ["x_sqlitedb", "x_enginefp"]
+    harnesses = [("vc03", "plain"), ("vengine", "plain")]
     assumptions = [
         "SQLite's rollback journal makes BEGIN EXCLUSIVE .. END atomic and durable across process death (supported, not proved, by the kill-point enumeration: every system call on the database/journal of every transaction of short histories)",
         "WellFormedBuild (explicit hypothesis of C04_committed_inv): writes happen inside buildStarted/buildComplete, every epoch written is <= e = stored iteration + 1, and setCurrentIteration(e) precedes buildComplete (BuildEngine.cpp:1561,1605)",
         "C04_committed_inv is proved for histories of ONE connection slot at a time (processes in sequence); concurrent connections are covered by C03_writes_need_lock only",
-        "engine-level clause (builds continued after a crash return clean results) is decided elsewhere on the engine model",
+        "engine-level clause (builds continued after a crash return clean results): proved on the abstract engine with a `crash` event at any point (C04_continue_clean; hypotheses Program.WF and pendingDropped = false, known finding F22) and exercised on the real engine by killing a forked build process before its n-th observable event; the observing database of that harness is in memory, so SQLite's journal is not part of this stream",
     ]
     trusted_base = ["extractor x_sqlitedb", "harness vc03 + LD_PRELOAD shim harness/vshim.c", "python restatement of the invariant (invariant_failures) and Spec"]
 
@@ -224,7 +228,29 @@ class Check(PropertyCheck):
         res.evaluations += total
         return fired
 
+    def engine_crashes(self, ctx, res):
+        """real engine: histories in which build processes are killed at arbitrary events, then continue"""
+        from .engine_common import EngineCheck
+
+        class _E(EngineCheck):
+            prop = "C05"          # reuse the cancellation/crash oracle kinds (stale results after an interrupted build)
+            mix = [(0.7, {"crash": True}), (0.3, {"crash": True, "cancel": True})]
+            budget = (150, 1500)
+
+            def corpus_cases(self):
+                return []
+        e = _E()
+        sub = type("X", (), {})()
+        sub.__dict__.update(ctx.__dict__)
+        sub.rng = C.Rng(ctx.seed, "C04/engine")
+        before = len(res.oracle_failures)
+        n = e.budget[1] if ctx.thorough else e.budget[0]
+        e.run_cases(sub, res, e.gen_cases(sub, n))
+        for f in res.oracle_failures[before:]:
+            f["stream"] = "engine-crash"
+
     def correspond(self, ctx, res):
+        self.engine_crashes(ctx, res)
         shim, out = build_shim()
         if shim is None:
             res.mismatches.append({"stream": "c04shim", "input": "cc failed", "impl": out[-500:]})
